@@ -16,7 +16,7 @@ import vlib
 from vlib import tla_set
 
 TYPE_OPS = ["get_pointer", "get_reference", "get_rvalue_reference", "get_array", "get_qualified", "get_function",
-            "get_function_x", "get_function_e", "get_function_ex", "get_product", "get_sum", "get_product_of",
+            "get_function_x", "get_function_e", "get_function_ex", "get_product", "get_sum", "get_product_ref", "get_sum_ref", "get_product_of",
             "get_sum_of", "get_forall", "get_ptr_to_member", "get_tor", "get_as_type", "get_as_type_x",
             "get_as_type_id", "get_transfer_from_linkage", "get_transfer_from_convention", "get_transfer"]
 NAME_OPS = ["get_identifier", "get_operator", "get_suffix", "get_conversion", "get_ctor_name", "get_dtor_name",
@@ -34,6 +34,11 @@ def mine(pid, fail):
     op = fail["expected"]["op"] if "expected" in fail else "init"
     key = fail["key"]
     expected_cls = key.split(":")[-1].split("/")[0] if ":" in key else ""
+    if pid == "C02":
+        # read-back of the operands of a unified node (types, names, atoms): whatever the identity, what the node
+        # reports must be what the specification says the request was built from
+        return "expected" in fail and "got" in fail and fail["expected"].get("o") != fail["got"].get("o") \
+            and fail["got"].get("out") == "ok"
     if pid == "C13":
         return op == "init" or expected_cls == "const"
     if op == "init":
@@ -75,6 +80,9 @@ def jobs_for(pid, tier):
                                            "get_product"],
                                           2 if q else 3, types=(12,), ids=(49,), maxseq=1,
                                           prelude="PreludeCompound")))
+        J.append(("sequences", base_consts(["get_product", "get_product_ref", "get_sum", "get_sum_ref", "get_product_of", "get_sum_of",
+                                            "get_function"],
+                                           3, types=(12, 3) if q else (12, 3, 2), maxseq=2)))
         J.append(("pairs", base_consts(["get_pointer", "get_reference", "get_rvalue_reference", "get_ptr_to_member",
                                         "get_array", "get_qualified"],
                                        3 if q else 4, types=(12,), exprs=(27,), quals=(1, 3), prelude="PreludeClass")))
@@ -90,6 +98,10 @@ def jobs_for(pid, tier):
         J.append(("values", base_consts(["get_linkage", "get_calling_convention", "get_transfer", "eq_linkage",
                                          "eq_callconv", "eq_transfer", "get_logogram", "eq_logogram"],
                                         3, words=("C", "Java", "") if q else ("C", "C++", "Java", ""), types=())))
+    elif pid == "C02":
+        c1 = dict(jobs_for("C01", tier))
+        c4 = dict(jobs_for("C04", tier))
+        J += [("xfer", c1["xfer"]), ("compound", c1["compound"]), ("sequences", c1["sequences"]), ("names", c4["names"]), ("atoms", c4["atoms"])]
     elif pid == "C11":
         J.append(("splits", base_consts(["get_qualified"], 3 if q else 4, types=(12,), quals=(0, 1, 2, 3, 4, 5, 6, 7),
                                         prelude="PreludeClass")))
@@ -107,6 +119,7 @@ def jobs_for(pid, tier):
 
 
 RECORD_OPS = {
+    "C02": TYPE_OPS + NAME_OPS + ["mk_class", "mk_phantom", "mk_expr_list", "mk_template"],
     "C01": TYPE_OPS + ["get_linkage", "get_calling_convention", "get_identifier", "mk_class", "mk_phantom",
                        "get_symbol", "get_decltype", "get_auto"],
     "C04": NAME_OPS + ["get_pointer", "get_product", "get_forall", "mk_template", "mk_expr_list", "mk_phantom",
@@ -218,6 +231,7 @@ def run(pid, tier, seed):
                 or (pid == "C11" and ev.get("op") == "get_qualified") \
                 or (pid == "C01" and ev.get("op") in TYPE_OPS) \
                 or (pid == "C04" and ev.get("op") in NAME_OPS) \
+                or (pid == "C02" and ev.get("op") in TYPE_OPS + NAME_OPS) \
                 or ev.get("op") in ("mk_class", "mk_phantom", "mk_expr_list", "mk_template", "get_decltype", "get_auto")
             if not ok_mine:
                 foreign += 1
